@@ -73,9 +73,11 @@ str(x) in json dependency mode (the markup and every dependency written out in f
 entry points were used on x and must not change; the lists handed out by render() / get_dependencies() are changed by
 the caller and the next render() must give what the first gave; every HTMLDependency (items with opts) and every
 head_content is made a second time from the very same argument objects and must come out the same; a document made
-twice from the same object, a text document made twice from equal arguments, are the same.  LEFT OUT, reported as a
-finding about /repo: two HTMLTextDocument objects given the SAME `deps` list object (the constructor keeps the caller's
-list and appends the extracted dependencies to it).
+twice from the same object, a text document made twice from equal arguments, are the same.  Items of kind
+"sharedlist" build two or three HTMLTextDocument objects from the SAME `deps` list object (texts with and without
+serialised dependencies, in both orders; all constructed first, or each rendered before the next is constructed): every
+document renders as the same text does alone with a list of its own, the first document's later renderings do not
+change, and the caller's list is what it was after every construction and after rendering (finding F13, repaired).
 """
 from __future__ import annotations
 
@@ -105,6 +107,8 @@ V_EXTRACT = "extracted serialised dependencies are not in first-occurrence order
 V_UNIQUE = "unique() is not first-occurrence order"
 V_HISTORY = "rendering depends on what was built or rendered earlier in the process"
 V_SECOND = "a second object built from the very same arguments differs from the first"
+V_SHARED = ("HTMLTextDocument objects built from the same deps list object: a document does not render as it does alone, "
+            "an earlier document's rendering changes, or the caller's list is changed")
 V_URL = "a dependency's URLs in the document are not <lib_prefix>/<name>[-<version>]/<file> of that dependency"
 
 MODEL_MAX = 40000          # characters of an item's description beyond which it is not sent to the extracted model
@@ -248,6 +252,7 @@ def fixed_battery() -> list[dict]:
             it.setdefault("opts", fixed_opts(k))
         k += 1
     items.extend(fixed_long_items())
+    items.extend(fixed_sharedlist_items())
     items.append({"id": "fix:resolve", "kind": "resolve",
                   "deps": [{"name": n, "version": v} for n, v in coll + list(reversed(coll))]})
     items.append({"id": "fix:unique", "kind": "unique",
@@ -418,6 +423,44 @@ def rand_text_item(rng, iid: str) -> dict:
     return text_item(iid, seq, given, fill)
 
 
+def shared_text(payloads: list[dict], fillers: list[str], pat: str) -> str:
+    body = "".join(fillers[i % len(fillers)] + ser(p) for i, p in enumerate(payloads))
+    return "<html><head>" + pat + "</head><body>" + body + fillers[-1] + "</body></html>"
+
+
+def sharedlist_item(iid: str, seqs: list[list[dict]], given: list[dict], pat: str, opts: dict | None = None) -> dict:
+    """one text per payload sequence (an empty sequence: a text without serialised dependencies), all documents
+    from one list object"""
+    it = {"id": iid, "kind": "sharedlist", "pattern": pat, "deps": given,
+          "texts": [shared_text(sq, ["<p>%d</p>" % j, "\n", ""], pat) for j, sq in enumerate(seqs)]}
+    if opts:
+        it["opts"] = opts
+    return it
+
+
+def fixed_sharedlist_items() -> list[dict]:
+    A = {"name": "b", "version": "2.0"}
+    B = {"name": "zeta", "version": "1.0", "script": {"src": "z.js"}}
+    C = {"name": "hc-like", "version": "0.0", "head": "<meta name='m'>"}
+    given = [{"name": "a", "version": "1.0", "script": {"src": "a.js"}}]
+    seqs = [("with-with", [[A], [A]]), ("with-without", [[A, B], []]), ("without-with", [[], [A, B]]),
+            ("without-without", [[], []]), ("different", [[A], [B, C]]), ("dups", [[A, A, B], [B, A]]),
+            ("three", [[A], [], [B, A]]), ("three-same", [[C, A], [C, A], [C, A]]), ("three-tail", [[], [], [A]])]
+    out = []
+    for k, (nm, sq) in enumerate(seqs):
+        out.append(sharedlist_item(f"fix:sharedlist-{nm}", sq, given if k % 3 != 2 else [],
+                                   PATTERNS[k % len(PATTERNS)], fixed_opts(k) if k % 2 else None))
+    return out
+
+
+def rand_sharedlist_item(rng, iid: str) -> dict:
+    pool = [{"name": rng.choice(["a", "b", "c", "zeta"]), "version": rng.choice(["1.0", "2.1"]),
+             **rng.choice([{}, {"script": {"src": "s.js"}}, {"head": "<x>"}])} for _ in range(rng.choice([1, 2, 4]))]
+    seqs = [[rng.choice(pool) for _ in range(rng.choice([0, 0, 1, 2, 3, 9]))] for _ in range(rng.choice([2, 2, 3]))]
+    given = [{"name": rng.choice(["g", "a"]), "version": "1.0"} for _ in range(rng.choice([0, 1, 1, 2]))]
+    return sharedlist_item(iid, seqs, given, rng.choice(PATTERNS), rand_opts(rng) if rng.random() < 0.5 else None)
+
+
 def rand_battery(rng, n: int, tag: str) -> list[dict]:
     items = []
     for i in range(n):
@@ -431,8 +474,10 @@ def rand_battery(rng, n: int, tag: str) -> list[dict]:
             items.append(rand_tree_item(rng, iid, malformed=True))
         elif r < 0.80:
             items.append(rand_hcdoc_item(rng, iid))
-        elif r < 0.90:
+        elif r < 0.87:
             items.append(rand_text_item(rng, iid))
+        elif r < 0.90:
+            items.append(rand_sharedlist_item(rng, iid))
         elif r < 0.96:
             names = rng.sample(["a", "b", "c", "jq", "A", "zz", "b2"], rng.choice([2, 3, 5]))
             items.append({"id": iid, "kind": "resolve", "deps": [
@@ -1486,6 +1531,38 @@ def check_reference(ctx: Ctx, items: list[dict], ref: dict, compact: dict | None
             if "opts" in r and r["opts"][1] != want:
                 ctx.violation(V_EXTRACT, shown(it), {"where": "render(lib_prefix=, include_version=)", "opts": it.get("opts"),
                                                      "impl_output": r["opts"][1], "expected": want})
+        if it["kind"] == "sharedlist" and o["shared"][0] == "ok":
+            r = o["shared"][1]
+            n = len(it["texts"])
+            want_deps = []
+            for t in it["texts"]:
+                ext = []
+                for s_ in first_occ(ensure_payloads({"kind": "text", "text": t})["_payloads"]):
+                    p_ = json.loads(s_[len(OPEN_TAG):-len(CLOSE_TAG)])
+                    ext.append([p_["name"], p_["version"]])
+                want_deps.append([[p_["name"], p_["version"]] for p_ in it["deps"]] + ext)
+            problems = []
+            if [a[1] for a in r["alone"]] != want_deps:
+                problems.append("a document alone does not list the given dependencies followed by its own extracted ones")
+            for key, what in (("first", "constructed together, first rendering"), ("again", "constructed together, rendered again"),
+                              ("interleaved", "each rendered before the next is constructed")):
+                for j in range(n):
+                    if r[key][j] != r["alone"][j]:
+                        problems.append("document %d (%s) does not render as the same text alone with a list of its own" % (j, what))
+            for j, later in enumerate(r["first_document_later"]):
+                if later != r["interleaved"][0]:
+                    problems.append("the first document renders differently after document %d was constructed from the same list" % (j + 1))
+            lists = [("after construction of document %d" % j, l) for j, l in enumerate(r["list_after_each_construction"])] + \
+                    [("after rendering", r["list_after_render"]), ("after the interleaved sequence", r["list_after_interleaved"])]
+            for what, l in lists:
+                if l != r["list_before"]:
+                    problems.append("the caller's list is changed %s: %s" % (what, [x[0] for x in l]))
+            if problems:
+                ctx.violation(V_SHARED, shown(it), {"problems": problems[:8],
+                                                    "impl_output": {k_: r[k_] for k_ in ("list_before", "list_after_each_construction",
+                                                                                          "first", "again", "interleaved",
+                                                                                          "first_document_later")},
+                                                    "expected": {"every document": r["alone"], "caller's list": r["list_before"]}})
         if it["kind"] == "unique" and o["unique"] != ["ok", first_occ(it["values"])]:
             ctx.violation(V_UNIQUE, shown(it), {"impl_output": short(o["unique"]), "expected": short(first_occ(it["values"]))})
     ctx.obligation("expected contents of the generated head_content forms = the implementation's rendering of "
@@ -1926,7 +2003,9 @@ def run(ctx: Ctx, only_items: list[dict] | None = None) -> None:
                 "append / extend / HTMLDocument render, copy, append / save_html of list, tag and document / json mode with "
                 "HTMLTextDocument / the with-block; each such result is compared across processes and histories, the document-like "
                 "ones of items with known head_content contents are checked for once-per-content, and afterwards the object must "
-                "render as before.  An evaluation = one item in one process; non-trivial = the item has a "
+                "render as before.  Items of kind sharedlist: two or three HTMLTextDocument objects from one deps list object (texts with / "
+                "without serialised dependencies, both orders, constructed together or interleaved with rendering), each judged against "
+                "the same text alone with its own list, the caller's list snapshotted.  An evaluation = one item in one process; non-trivial = the item has a "
                 "dependency / head_content / >= 2 attributes or is a text / list / program item; distinct = (item, process).")
     ctx.assumptions = [
         "process-level determinism is observed on the sampled hash seeds and orders, not proved (DESIGN C18: PARTIAL)",
